@@ -35,7 +35,7 @@ func execC35(t *testing.T, c C35Case) *Verdict {
 	st.Sample(c, 2)
 	// Batch oracle: a brand-new executor and session on the files as they are
 	// after each step, unsimulated, each in its own quiesced bubble.
-	batchDisk := &simOpener{files: c.WL.sources(), transient: map[string]bool{}}
+	batchDisk := &simOpener{files: c.WL.userSources(), transient: map[string]bool{}}
 	var batch []expOutcome
 	for step := -1; step < len(c.Steps); step++ {
 		if step >= 0 {
@@ -49,7 +49,7 @@ func execC35(t *testing.T, c C35Case) *Verdict {
 	}
 	// The long-lived executor lives in one bubble for the whole history
 	// (channels created in a bubble cannot be used from another one).
-	disk := &simOpener{files: c.WL.sources(), transient: map[string]bool{}}
+	disk := &simOpener{files: c.WL.userSources(), transient: map[string]bool{}}
 	var v *Verdict
 	nontrivial := false
 	client := sim.Client{Name: "c0", Fn: func() {
